@@ -33,6 +33,9 @@ type protoCase struct {
 	What  string   `json:"what,omitempty"`
 	Want  string   `json:"want_tree,omitempty"`
 	Meter bool     `json:"meter,omitempty"`
+	// C03 history: inputs (hex) decoded into fresh variables of the same type before the round trip - damaged
+	// encodings of OTHER values, whose decoding fails half-way: whatever scratch they leave behind must not show
+	Poison []string `json:"poison,omitempty"`
 }
 
 func parseProtoVec(c *Ctx, prop string, raw stdjson.RawMessage) (protoVec, bool) {
@@ -184,6 +187,10 @@ func c03Run(c *Ctx, k protoCase) {
 	x, t := goValue(l, k.Shape, k.Val, k.Ptr)
 	var b []byte
 	var err error
+	for _, ph := range k.Poison {
+		pb, _ := hex.DecodeString(ph)
+		protect(func() { proto.Unmarshal(pb, reflect.New(t).Interface()) })
+	}
 	if p := protect(func() { b, err = proto.Marshal(x) }); p != "" {
 		fail("proto.Marshal", "no panic", p, "")
 		return
@@ -227,6 +234,37 @@ func c03Run(c *Ctx, k protoCase) {
 	}
 }
 
+type poisonSrc struct {
+	recs []pRec
+	salt int
+}
+
+var (
+	c03PrevMu sync.Mutex
+	c03Prev   = map[string][]poisonSrc{} // per shape: the encodings of the last values seen
+)
+
+// damagedRecs: the message with a record of an invalid wire type (7) appended - at the top level and inside
+// every embedded message / map entry (so that decoding fails after the fields before it were decoded) - and
+// with every embedded record's last field cut off
+func damagedRecs(recs []pRec) [][]pRec {
+	bad := pRec{N: 3, W: 7}
+	out := [][]pRec{append(append([]pRec(nil), recs...), bad)}
+	for i, r := range recs {
+		if r.W == 2 && (r.K == "entry" || isMsgKind(r.K)) {
+			cp := append([]pRec(nil), recs...)
+			cp[i].Sub = append(append([]pRec(nil), r.Sub...), bad)
+			out = append(out, cp)
+			for _, inner := range damagedRecs(r.Sub)[1:] {
+				cp2 := append([]pRec(nil), recs...)
+				cp2[i].Sub = inner
+				out = append(out, cp2)
+			}
+		}
+	}
+	return out
+}
+
 func c03Vector(c *Ctx, raw stdjson.RawMessage) {
 	v, ok := parseProtoVec(c, "C03", raw)
 	if !ok {
@@ -250,6 +288,30 @@ func c03Vector(c *Ctx, raw stdjson.RawMessage) {
 			c03Run(c, protoCase{Shape: v.Shape, Val: v.Val, Salt: salt, Ptr: ptr})
 		}
 	}
+	// history: the round trip after failed decodes of damaged encodings of other values of the same type
+	key := shapeKey(v.Shape)
+	c03PrevMu.Lock()
+	prev := append([]poisonSrc(nil), c03Prev[key]...)
+	c03PrevMu.Unlock()
+	var poison []string
+	for _, ps := range prev {
+		for _, recs := range damagedRecs(ps.recs) {
+			poison = append(poison, hex.EncodeToString(lift{ps.salt}.encodeRecs(recs, wireOpts{})))
+		}
+	}
+	if len(poison) > 0 {
+		if len(poison) > 24 {
+			poison = poison[:24]
+		}
+		c.Case()
+		c03Run(c, protoCase{Shape: v.Shape, Val: v.Val, Salt: salts[1], Ptr: r.intn(2) == 0, Poison: poison})
+	}
+	c03PrevMu.Lock()
+	if len(prev) >= 3 {
+		prev = prev[1:]
+	}
+	c03Prev[key] = append(prev, poisonSrc{v.Wire, salts[1]})
+	c03PrevMu.Unlock()
 	// lifting: string lengths that take the sizes of the enclosing records across the varint boundaries
 	for _, n := range strLenSweep(c, r, v.Shape) {
 		c.Case()
@@ -397,7 +459,7 @@ func c12Vector(c *Ctx, raw stdjson.RawMessage) {
 			try("reference.Marshal", rb)
 		}
 		for name, recs := range full.Re {
-			if name == "unknown" {
+			if name == "unknown" || name == "aliased" {
 				continue // C07
 			}
 			try(name, l.encodeRecs(recs, wireOpts{}))
@@ -644,6 +706,21 @@ func c07Vector(c *Ctx, raw stdjson.RawMessage) {
 		}
 		c07Total(c, mu)
 		c07Scan(c, mk("unknown-fields", unk, ""), full.Re["unknown"])
+	}
+	// unknown fields whose numbers share their low 16 bits with the declared ones
+	if recs, ok := full.Re["aliased"]; ok {
+		al := l.encodeRecs(recs, wireOpts{})
+		if tr, err := refDecode(v.Shape, al); err != nil || treeString(tr) != want {
+			c.SpecError("C07", "reference does not ignore the unknown fields with aliasing numbers", mk("aliased", al, want))
+		} else {
+			c.Case()
+			ma := mk("unknown-fields-aliasing-low-16-bits", al, want)
+			if bigNumber(v.Shape) {
+				ma.Want = ""
+			}
+			c07Total(c, ma)
+			c07Scan(c, mk("unknown-fields-aliasing-low-16-bits", al, ""), recs)
+		}
 	}
 	// every prefix (crash points): error or value, never a panic, bounded allocation
 	for _, src := range [][]byte{canon, unk} {
